@@ -220,7 +220,7 @@ def c03_oracle(case, out):
     return None
 
 
-def c03_corr(res, exe, driver, tier, seed, tmp, with_seg=True):
+def c03_corr(res, exe, driver, tier, seed, tmp, with_seg=True, own=True):
     if with_seg:
         p_seg.seg_corr(res, exe, driver, "quick", seed, tmp)
     cases = lb_cases(tier, seed)
@@ -241,6 +241,12 @@ def c03_corr(res, exe, driver, tier, seed, tmp, with_seg=True):
             opk[k] = opk.get(k, 0) + 1
         if " e=d:" in o or " e=is:" in o or " e=ic:" in o or "e=sk" in o:
             res.nontrivial.add(c)
+    # recorded witness of K_insert_str_cursor: text inserted BEFORE the cursor through the public insert_str leaves the byte
+    # cursor where it was -- inside the inserted character -- and the next operation panics
+    wit = run_impl(exe, "linebuf", ["4096 61.62 1 ; istr 0 e9 ; mb 1"], tmp)[0].split(" ; ") if own else []
+    if len(wit) == 2 and wit[0] != "panic" and parse_step(wit[0])[3] and wit[1] == "panic":
+        res.known_confirmed.append(("K_insert_str_cursor", "LineBuffer::insert_str before the cursor leaves the cursor off a character boundary: "
+                                    "'ab' cursor 1, insert_str(0, 'é') -> cursor 1 inside 'é', the next move_backward panics"))
     res.rule = ("linebuf stream: (1) every string of <=3 chars (thorough: <=4) over {a,_,blank,comma,LF,e-acute,U+0301,CJK}, "
                 "every character-boundary cursor, ops of every kind (quick: 6 sampled kinds per state) with counts from "
                 "{0,1,2,3,4,65535} and every Word/At/CharSearch/Movement form; (2) random multi-line buffers up to 40 (thorough: "
@@ -364,7 +370,7 @@ def c04_cases(tier, seed):
 
 
 def c04_corr(res, exe, driver, tier, seed, tmp):
-    cases, impl = c03_corr(res, exe, driver, "quick", seed, tmp)   # the shared linebuf stream (+ seg)
+    cases, impl = c03_corr(res, exe, driver, "quick", seed, tmp, own=False)   # the shared linebuf stream (+ seg)
     # the line motions with a count (LineBuffer::move_to_line_up / _down take the crate-private Layout: reachable only
     # through the editor): Up / Down with counts inside texts of several lines, under prompts of several widths, on a pty
     import p_tty
